@@ -91,6 +91,10 @@ pub fn list_get_body<N: Nd, const L: usize>(nd: &mut N, mutable: bool) {
 }
 
 pub fn list_slice_body<N: Nd, const L: usize>(nd: &mut N, logged: bool) {
+    list_slice_body_z::<N, L>(nd, logged, true)
+}
+
+pub fn list_slice_body_z<N: Nd, const L: usize>(nd: &mut N, logged: bool, allow_zero_step: bool) {
     let mut data = [0u8; L];
     for k in 0..L {
         data[k] = nd.u8();
@@ -101,10 +105,15 @@ pub fn list_slice_body<N: Nd, const L: usize>(nd: &mut N, logged: bool) {
     let end = nd.opt_i64();
     let step = nd.opt_i64();
     let zero = step == Some(0);
+    if !allow_zero_step {
+        nd.assume(!zero);
+    }
     let expect = if zero { Some(IncanError::slice_step_zero()) } else { None };
     let mut idxs = [0usize; LOG_CAP];
     let m = if zero { 0 } else { py_slice_walk(len, start, end, step.unwrap_or(1), &mut idxs) };
-    vcover!(zero, "zero step");
+    if allow_zero_step {
+        vcover!(zero, "zero step");
+    }
     vcover!(m == L && step == Some(-1), "full reverse slice");
     vcover!(m >= 2 && step == Some(2), "stride-2 slice with two or more elements");
     vcover!(m == 1 && step == Some(i64::MAX), "step i64::MAX yields exactly one element");
@@ -305,9 +314,9 @@ harnesses! {
     #[kani::stub(alloc::vec::Vec::push, crate::env::vec_push_stub)]
     fn c05_list_slice_l6(nd) { list_slice_body::<_, 6>(nd, true) }
 
-    #[kani::unwind(34)]
-    #[kani::stub(incan_stdlib::errors::raise, crate::env::raise_stub)]
-    fn c05_list_slice_real_vec_l3(nd) { list_slice_body::<_, 3>(nd, false) }
+    // the REAL output Vec (validates the push-log stand-in); non-zero steps only, so that the small unwind bound suffices
+    #[kani::unwind(7)]
+    fn c05_list_slice_real_vec_l3(nd) { list_slice_body_z::<_, 3>(nd, false, false) }
 
     #[kani::unwind(34)]
     #[kani::stub(incan_stdlib::errors::raise, crate::env::raise_stub)]
